@@ -1155,20 +1155,55 @@ def request_line_k(run):
             raw = line.encode('latin-1')
             if not line.endswith('\n'):
                 raw_all = raw               # no line end: the line is all the peer sends
-                hdrs_m, payload_m = [], b''
+                rest, payload_m = '', b''
             else:
-                raw_all = raw + ''.join('%s: %s\r\n' % kv for kv in map(tuple, hdrs)).encode('latin-1') + b'\r\n' + payload
-                hdrs_m, payload_m = hdrs, payload
+                # the header section as raw text, in the spellings http.client.parse_headers has rules for
+                rest = ''
+                for k, v in hdrs:
+                    if k == 'Content-Type' and rng.random() < 0.3:
+                        v = rng.choice(['text/xml;\r\n charset=utf-8', 'text/xml \t', 'application/xml;\r\n\tcharset="utf-8"'])
+                    rest += (rng.choice([k, k.lower(), k.upper()]) + rng.choice([': ', ':', ':\t ', ':  ']) + v
+                             + rng.choice(['\r\n', '\r\n', '\n']))
+                if rng.random() < 0.1:
+                    rest = rng.choice(['From x\r\n', ': y\r\n', ' z\r\n']) + rest
+                if rng.random() < 0.05:
+                    rest = rest + 'no colon\r\nContent-Length: 1\r\n'       # ends the header section early
+                rest += rng.choice(['\r\n', '\r\n', '\n'])
+                raw_all = raw + rest.encode('latin-1') + payload
+                payload_m = payload
             st, buf = exchange(sess.port, raw_all)
             got = ['blocked'] if st == 'timeout' else classify_wire(buf)
             an = analyse(payload_m)
-            reqs.append({'op': 'serve', 'line': common.cps(line), 'hdrfault': False, 'method': common.cps('POST'),
-                         'headers': [[common.cps(k), common.cps(v)] for k, v in hdrs_m], 'blen': len(payload_m),
+            reqs.append({'op': 'serve', 'line': common.cps(line), 'rest': common.cps(rest), 'method': common.cps('POST'),
+                         'headers': [], 'blen': len(payload_m),
                          'k': len(payload_m), 'tree': an['tree'], 'xmlexc': an['xmlexc'], 'msg': common.cps(an['msg']),
                          'foreign': an['foreign'], 'exctext': common.cps(an['exctext']), 'codec': an['codec'], 'inst': 'ok',
                          'alloc': ALLOC_LIMIT})
             real.append(got)
             lines.append(line)
+        # the stdlib-made header values: Date (formatdate) and Server (pywbem's version_string) as the model writes them
+        import email.utils
+        import pywbem
+        from http.server import BaseHTTPRequestHandler as B
+        st, buf = exchange(sess.port, b'GET / HTTP/1.1\r\nHost: x\r\n\r\n')
+        rsp, _ = parse_response(buf)
+        if rsp is not None:
+            dates = [hget(rsp['headers'], 'Date')] + [email.utils.formatdate(rng.randrange(0, 2 ** 33), usegmt=True)
+                                                      for _ in range(40)]
+            dreqs, dreal = [], []
+            for ds in dates:
+                t = email.utils.parsedate(ds)
+                wd = ['Mon', 'Tue', 'Wed', 'Thu', 'Fri', 'Sat', 'Sun'].index(ds[:3])
+                dreqs.append({'op': 'date', 'wd': wd, 'd': t[2], 'mon': t[1], 'y': t[0], 'hh': t[3], 'mm': t[4], 'ss': t[5],
+                              'v': common.cps(pywbem.__version__), 'sv': common.cps(B.server_version),
+                              'sys': common.cps(B.sys_version)})
+                dreal.append({'out': common.cps(ds), 'server': common.cps((hget(rsp['headers'], 'Server') or '') + ' ')})
+            for rq, a, r in zip(dreqs, common.run_driver(PROP, dreqs), dreal):
+                run.case({'unit': 'date', 'v': r['out']}, nontrivial=True)
+                run.count('unit:date')
+                if a != r:
+                    run.disagree({'unit': 'date', 'fields': {k: v for k, v in rq.items() if k not in ('v', 'sv', 'sys')}}, a, r,
+                                 'Date / Server header value')
         answers = common.run_driver(PROP, reqs)
         for line, a, r in zip(lines, answers, real):
             run.case({'unit': 'serve', 'line': line[:200]}, nontrivial=True)
@@ -1229,6 +1264,32 @@ def unit_k(run):
         try:
             real.append(common.cps(bs.decode('utf-8')))
         except UnicodeDecodeError:
+            real.append(None)
+    # header sections: Model parseHeaders vs http.client.parse_headers (what http.server hands to do_POST)
+    import io
+    import http.client
+    hn = ['Content-Type', 'content-length', 'CIMExport', 'Accept', 'X', 'a b', '', 'N\xe4me', 'From', 'x:y', 'Accept-Charset']
+    hsep = [':', ': ', ':  ', ':\t', ' :', ': \t ']
+    hv = ['text/xml', '12', 'MethodRequest', 'utf-8;q=0.5, *', '', ' ', 'a\r\n b', 'a\r\n\tb\r\n  c', 'a\rb', 'a\x0bb', 'a\x85b',
+          'a\x1cb', 'a:b', 'v ', 'v\t', '\xe9', 'a\n b', 'a\x0cb', 'a\x1eb']
+    hl = ['From me\r\n', 'no colon here\r\n', ' leading continuation\r\n', ':empty name\r\n', 'From: x\r\n', '\tx\r\n']
+    for i in range(n):
+        parts = []
+        for _ in range(rng.randint(0, 6)):
+            if rng.random() < 0.12:
+                parts.append(rng.choice(hl))
+            else:
+                parts.append(rng.choice(hn) + rng.choice(hsep) + rng.choice(hv) + rng.choice(['\r\n', '\r\n', '\n']))
+        text = ''.join(parts) + rng.choice(['\r\n', '\r\n', '\n', '', '\r\nbody: x\r\n'])
+        if i % 97 == 0:
+            text = ''.join('X-%d: 1\r\n' % j for j in range(rng.choice([98, 99, 100, 101, 150]))) + '\r\n'
+        if i % 101 == 0:
+            text = 'X: ' + 'y' * rng.choice([65500, 65531, 65532, 65533, 65534, 70000]) + '\r\n\r\n'
+        reqs.append({'op': 'hdrs', 's': common.cps(text)})
+        try:
+            m = http.client.parse_headers(io.BytesIO(text.encode('latin-1')))
+            real.append([[common.cps(k), common.cps(v)] for k, v in m.items()])
+        except http.client.HTTPException:
             real.append(None)
     answers = common.run_driver(PROP, reqs)
     for rq, a, r in zip(reqs, answers, real):
